@@ -223,6 +223,10 @@ fn small_amount(r: &mut Rng) -> u64 {
 
 /// a vector of k leaf statements: mostly compatible, with one deliberate feature per branch
 fn gen_leaf_batch(r: &mut Rng, k: usize, n: usize, u: &Universe) -> (Vec<Leaf>, &'static str) {
+    gen_leaf_batch_with(r, k, n, u, None)
+}
+/// `force`: the feature branch to take (0..=12, anything above = plain compatible batch)
+fn gen_leaf_batch_with(r: &mut Rng, k: usize, n: usize, u: &Universe, force: Option<u64>) -> (Vec<Leaf>, &'static str) {
     let padding = k < n;
     let asset = if !padding && r.chance(1, 3) { *r.pick(&[1u64, 7, (1 << 32) - 1, 1 << 32, P - 1]) } else { 0 };
     let fee = *r.pick(&[0u64, 10, 10000]);
@@ -242,7 +246,8 @@ fn gen_leaf_batch(r: &mut Rng, k: usize, n: usize, u: &Universe) -> (Vec<Leaf>, 
     }
     let i = r.below(k as u64) as usize;
     let j = if k >= 2 { (i + 1 + r.below(k as u64 - 1) as usize) % k } else { i };
-    match r.below(16) {
+    let branch = r.below(16);
+    match force.unwrap_or(branch) {
         0 => {
             ls[i][0] = asset + 1;
             tag = "asset-differs";
@@ -502,59 +507,83 @@ fn c14_private(out: &mut Out, rng: &mut Rng, thorough: bool, t0: std::time::Inst
         prove: bool,
     }
     let mut jobs: Vec<Job> = vec![];
+    // modification applied to one proof of the vector: 0 tampered, 1 wrong PI length, 2 template supplied, 3 non-native asset
+    // while padding is needed; anything else: none
+    let mut plan: Vec<(usize, usize, Option<u64>, u64)> = vec![];
+    // the fixed part: every feature branch once through the real commit at n = 2, the count / shape / cryptography classes,
+    // and padding (k < n) with one and two real proofs
+    for f in 0..=12u64 {
+        plan.push((2, 2, Some(f), 99));
+    }
+    for m in [99u64, 0, 1, 2, 3] {
+        plan.push((2, 1, Some(15), m));
+    }
+    plan.push((2, 0, None, 99));
+    plan.push((2, 3, Some(15), 99));
+    for (k, f, m) in [(1usize, 15u64, 99u64), (1, 6, 99), (1, 5, 99), (1, 15, 0)] {
+        plan.push((1, k, Some(f), m));
+    }
+    for (k, f) in [(2usize, 15u64), (2, 3), (3, 7)] {
+        if sizes.contains(&3) {
+            plan.push((3, k, Some(f), 99));
+        }
+    }
+    // the random part
     for &n in &sizes {
         let reps = match (n, thorough) {
-            (1, false) => 6,
-            (2, false) => 18,
-            (_, false) => 3,
-            (1, true) => 120,
-            (2, true) => 400,
+            (_, false) => 0,
+            (1, true) => 100,
+            (2, true) => 380,
             (3, true) => 160,
             _ => 60,
         };
-        for rep in 0..reps {
+        for _ in 0..reps {
             let k = match rng.below(24) {
                 0 => 0,
                 1 => n + 1,
                 _ => 1 + rng.below(n as u64) as usize,
             };
-            let (ls, tag) = gen_leaf_batch(rng, k, n, &u);
-            let mut ch: Vec<Child> = ls.iter().map(|l| valid(&ctx.fl, *l)).collect();
-            let mut tag = tag.to_string();
-            if k > 0 {
-                let i = rng.below(k as u64) as usize;
-                match rng.below(14) {
-                    0 => {
-                        // flip a public input after proving
-                        let at = rng.below(21) as usize;
-                        ch[i] = tampered(&ctx.fl, ls[i], at, ls[i][at] ^ 1);
-                        tag += "+tampered";
-                    }
-                    1 => {
-                        ch[i] = wrong_len(&ctx.fl, ls[i], rng.chance(1, 2));
-                        tag += "+pi-len";
-                    }
-                    2 => {
-                        // the padding template itself supplied as a "real" proof
-                        ch[i] = Child { proof: ctx.template.clone(), verifies: true };
-                        tag += "+template-supplied";
-                    }
-                    3 if k < n => {
-                        // padding needed and a non-native asset
-                        let mut l = ls[i];
-                        l[0] = *rng.pick(&[1u64, (1 << 32) - 1, 1 << 32, P - 1]);
-                        ch[i] = valid(&ctx.fl, l);
-                        tag += "+nonzero-asset-with-padding";
-                    }
-                    _ => {}
-                }
-            }
-            jobs.push(Job { n, ch, tag, prove: rep % 6 == 0 });
+            plan.push((n, k, None, rng.below(14)));
         }
+    }
+    for (rep, (n, k, force, modif)) in plan.into_iter().enumerate() {
+        let (ls, tag) = gen_leaf_batch_with(rng, k, n, &u, force);
+        let mut ch: Vec<Child> = ls.iter().map(|l| valid(&ctx.fl, *l)).collect();
+        let mut tag = tag.to_string();
+        if k > 0 {
+            let i = rng.below(k as u64) as usize;
+            match modif {
+                0 => {
+                    // flip a public input after proving
+                    let at = rng.below(21) as usize;
+                    ch[i] = tampered(&ctx.fl, ls[i], at, ls[i][at] ^ 1);
+                    tag += "+tampered";
+                }
+                1 => {
+                    ch[i] = wrong_len(&ctx.fl, ls[i], rng.chance(1, 2));
+                    tag += "+pi-len";
+                }
+                2 => {
+                    // the padding template itself supplied as a "real" proof
+                    ch[i] = Child { proof: ctx.template.clone(), verifies: true };
+                    tag += "+template-supplied";
+                }
+                3 if k < n => {
+                    // padding needed and a non-native asset
+                    let mut l = ls[i];
+                    l[0] = *rng.pick(&[1u64, (1 << 32) - 1, 1 << 32, P - 1]);
+                    ch[i] = valid(&ctx.fl, l);
+                    tag += "+nonzero-asset-with-padding";
+                }
+                _ => {}
+            }
+        }
+        let tag = format!("n={},k={}:{}", n, k, tag);
+        jobs.push(Job { n, ch, tag, prove: rep % 9 == 0 });
     }
     // in chunks, likely-accepted vectors first, so that provers handed back by accepted commits are reused by later cases
     // (a rejected commit drops its prover)
-    jobs.sort_by_key(|j| !(j.tag == "compatible" || j.tag.starts_with("max-amounts") || j.tag.starts_with("accounts-differ")));
+    jobs.sort_by_key(|j| !(j.tag.ends_with(":compatible") || j.tag.contains("max-amounts") || j.tag.contains("accounts-differ") || j.tag.contains("supplied-dummy")));
     let mut obs: Vec<CommitObs> = vec![];
     for chunk in jobs.chunks(8) {
         obs.extend(chunk.par_iter().map(|j| private_commit(&ctx, j.n, &j.ch, j.prove)).collect::<Vec<_>>());
@@ -672,14 +701,32 @@ impl InnerStack {
         21 * self.n_leaf + 8
     }
     /// a genuine private-batch proof through the REAL PrivateBatchProver (commit + prove)
-    fn real_inner(&self, leaves: &[Leaf]) -> Proof {
+    fn real_inner(&self, leaves: &[Leaf]) -> Result<Proof, String> {
         let proofs: Vec<Proof> = leaves.iter().map(|l| self.fl.prove(*l)).collect();
         PrivateBatchProver::new(self.cfg.clone(), self.fl.data.common.clone(), &self.fl.data.verifier_only, self.n_leaf, self.leaf_template.clone())
-            .unwrap()
+            .map_err(|e| format!("{:#}", e))?
             .commit(proofs)
-            .expect("inner commit")
+            .map_err(|e| format!("{:#}", e))?
             .prove()
-            .expect("inner prove")
+            .map_err(|e| format!("prove after an accepted commit failed: {:#}", e))
+    }
+    /// the same, reported as a commit case (fid 1401 / 1402) when the real prover refuses or fails: these vectors are
+    /// compatible by construction, so the model says Ok
+    fn real_inner_or_report(&self, out: &mut Out, tag: &str, leaves: &[Leaf]) -> Option<Proof> {
+        match self.real_inner(leaves) {
+            Ok(p) => Some(p),
+            Err(m) => {
+                let ch: Vec<Child> = leaves.iter().map(|l| valid(&self.fl, *l)).collect();
+                let segs = commit_segs(self.n_leaf, &[], &self.leaf_template, &ch);
+                if m.starts_with("prove after") {
+                    out.case(1401, tag, &segs, &[1]);
+                    out.case(1402, tag, &segs, &[0]);
+                } else {
+                    out.case(1401, tag, &segs, &enc_commit(&Err(m)));
+                }
+                None
+            }
+        }
     }
     /// an all-dummy private-batch proof, built the way the circuit-build path builds the padding template
     fn all_dummy_inner(&self, dummy_leaf: Leaf, r: &mut Rng) -> Proof {
@@ -761,7 +808,16 @@ fn c14_public(out: &mut Out, rng: &mut Rng, thorough: bool, t0: std::time::Insta
     let mk = |asset: u64, fee: u64, bh: [u64; 4], null: u64| leaf(asset, 100, 0, fee, [null, 0, 0, 0], acct, [0; 4], bh, 3);
     // genuine inner proofs through the real private-batch prover (n = 1, so a non-native asset needs no padding)
     let specs: Vec<(&str, Leaf)> = vec![("A", mk(0, 10, bh1, 1)), ("A2", mk(0, 10, bh1, 2)), ("B-other-block", mk(0, 10, bh2, 3)), ("C-other-asset", mk(7, 10, bh1, 4)), ("D-other-fee", mk(0, 11, bh1, 5))];
-    let reals: Vec<Proof> = specs.par_iter().map(|(_, l)| inner.real_inner(&[*l])).collect();
+    let made: Vec<Result<Proof, String>> = specs.par_iter().map(|(_, l)| inner.real_inner(&[*l])).collect();
+    if made.iter().any(|r| r.is_err()) {
+        // the real private-batch prover refused (or failed to prove) a single compatible real leaf: report it as what it is
+        for (tag, l) in &specs {
+            let _ = inner.real_inner_or_report(out, &format!("inner-proof-for-public-batch:{}", tag), &[*l]);
+        }
+        out.note("c14-public", "skipped: the real PrivateBatchProver did not produce the inner proofs (reported as commit cases)");
+        return;
+    }
+    let reals: Vec<Proof> = made.into_iter().map(|r| r.unwrap()).collect();
     let template = inner.all_dummy_inner([0; 21], rng);
     // an all-dummy inner proof whose (ignored) header carries another asset: exempt from every comparison
     let mut dl = [0u64; 21];
@@ -1059,8 +1115,6 @@ impl Drop for StdoutToStderr {
 }
 
 fn c16_canonical(out: &mut Out, thorough: bool, t0: std::time::Instant) {
-    out.flush();
-    let _quiet = StdoutToStderr::new();
     use wormhole_aggregator::private_batch::circuit::build::generate_private_batch_circuit_binaries;
     let templates = canonical_leaf_templates(thorough);
     out.note("c16-canonical", &format!("{} real leaf proofs against the canonical leaf circuit; elapsed {:?}", templates.len(), t0.elapsed()));
@@ -1090,6 +1144,8 @@ fn c16_canonical(out: &mut Out, thorough: bool, t0: std::time::Instant) {
         }
         j
     };
+    out.flush();
+    let quiet = StdoutToStderr::new();
     let res: Vec<Result<(), String>> = jobs
         .par_iter()
         .enumerate()
@@ -1133,6 +1189,7 @@ fn c16_canonical(out: &mut Out, thorough: bool, t0: std::time::Instant) {
             }
         })
         .collect();
+    drop(quiet);
     for ((entry, i), r) in jobs.iter().zip(res) {
         let (tag, c) = &templates[*i];
         run_template_entry(out, 1601, *entry, tag, c, r);
@@ -1141,6 +1198,8 @@ fn c16_canonical(out: &mut Out, thorough: bool, t0: std::time::Instant) {
 
     if thorough {
         // the public-batch loaders and aggregator init need the whole canonical artifact set (n = 1, m = 1)
+        out.flush();
+        let quiet = StdoutToStderr::new();
         let base = tmp_dir("all");
         circuit_builder::generate_all_circuit_binaries(&base, true, 1, Some(1)).expect("canonical artifact set");
         let leaf = wormhole_aggregator::common::utils::canonical_leaf_verifier_data();
@@ -1184,6 +1243,7 @@ fn c16_canonical(out: &mut Out, thorough: bool, t0: std::time::Instant) {
                 r
             })
             .collect();
+        drop(quiet);
         for ((entry, i), r) in jobs.iter().zip(res) {
             let (tag, c) = &tpls[*i];
             run_template_entry(out, 1602, *entry, tag, c, r);
@@ -1214,11 +1274,17 @@ fn c16_private_batch_templates(out: &mut Out, rng: &mut Rng, thorough: bool, t0:
         let mut v: Vec<(String, Child)> = vec![
             ("all-dummy".into(), Child { proof: good.clone(), verifies: true }),
             ("all-dummy-other-asset".into(), Child { proof: odd, verifies: true }),
-            ("valid-real-batch".into(), Child { proof: real.clone(), verifies: true }),
+        ];
+        if let Ok(real) = &real {
+            v.push(("valid-real-batch".into(), Child { proof: real.clone(), verifies: true }));
+        } else {
+            out.note("c16-private-batch", "no valid real batch proof available (the private-batch prover refused a compatible vector; see C14)");
+        }
+        v.extend(vec![
             ("short".into(), relen_proof(&good, false)),
             ("long".into(), relen_proof(&good, true)),
             ("leaf-proof-as-template".into(), Child { proof: inner.fl.prove([0; 21]), verifies: false }),
-        ];
+        ]);
         // every single position deviating (the proof then no longer verifies; the sentinel is checked first, so the class
         // still tells which condition fired)
         for i in 0..len {
@@ -1237,11 +1303,13 @@ fn c16_private_batch_templates(out: &mut Out, rng: &mut Rng, thorough: bool, t0:
             v.push(("tampered-pair".into(), c));
         }
         // a real batch proof with its block hash zeroed afterwards: sentinel-clean header, live exit slots
-        let mut z = real.clone();
-        for i in 3..7 {
-            z.public_inputs[i] = F::ZERO;
+        if let Ok(real) = &real {
+            let mut z = real.clone();
+            for i in 3..7 {
+                z.public_inputs[i] = F::ZERO;
+            }
+            v.push(("real-batch-with-zeroed-block-hash".into(), Child { proof: z, verifies: false }));
         }
-        v.push(("real-batch-with-zeroed-block-hash".into(), Child { proof: z, verifies: false }));
         for (tag, c) in &v {
             let r = verif_verify_dummy_private_batch_template(&c.proof, &vd).map_err(|e| format!("{:#}", e));
             run_template_entry(out, 1602, E_DIRECT, &format!("n={}:{}", n_leaf, tag), c, r);
